@@ -24,17 +24,19 @@ class Crit(BaseCriteria):
 
 
 def handler(case):
+    global WS
+    WS = float(case.get("wscale", 64))      # weights are RELATIVE: w/64 (all <= 1), w/8 or w itself (up to 64) describe the same law
     atoms = Atoms("Ar2", positions=[[0, 0, 0], [1, 1, 1]])
     mc = MonteCarlo(atoms, max_cycles=case["cycles"], seed=case["seed"])
     refused = []
     for e in case["adds"]:
         try:
-            mc.add_move(Noop(), Crit(), name=f"m{e['name']}", interval=e["interval"], probability=e["weight"] / 64.0,
+            mc.add_move(Noop(), Crit(), name=f"m{e['name']}", interval=e["interval"], probability=e["weight"] / WS,
                         minimum_count=e["min"])
             refused.append(False)
         except ValueError:
             refused.append(True)
-    table = [[int(n[1:]), s.interval, s.probability * 64.0, s.minimum_count] for n, s in mc.moves.items()]
+    table = [[int(n[1:]), s.interval, s.probability * WS, s.minimum_count] for n, s in mc.moves.items()]
     log = []
     mc._rng = RecordingRNG(mc._rng, log)
     steps = []
@@ -48,7 +50,7 @@ def handler(case):
             names.append(int(n[1:]))
             slot_marks.append(len(log) - mark)
             if edit and k == case["steps"] - 1 and j == edit["after"] and f"m{edit['name']}" in mc.moves:
-                mc.moves[f"m{edit['name']}"].probability = edit["weight"] / 64.0
+                mc.moves[f"m{edit['name']}"].probability = edit["weight"] / WS
         calls = []
         for (meth, a, kw, r) in log[mark:]:
             if meth == "choice":
